@@ -122,7 +122,19 @@ func (p *psess) serveUntil(peerBytes string, handlerErr error, deadline bool) er
 		}
 	}
 	if peerBytes != "" {
-		if !common.WithTimeout(3*time.Second, func() { p.peer.Write([]byte(peerBytes)) }) {
+		written := make(chan struct{})
+		go func() { p.peer.Write([]byte(peerBytes)); close(written) }()
+		select {
+		case <-written:
+		case <-ret:
+			// Serve has returned: after it read what the peer sent (fine), or without reading it
+			select {
+			case <-written:
+				return nil
+			case <-time.After(50 * time.Millisecond):
+				return fmt.Errorf("Serve returned without reading what the peer sent")
+			}
+		case <-time.After(3 * time.Second):
 			return fmt.Errorf("Serve did not read what the peer sent")
 		}
 	}
@@ -400,6 +412,9 @@ func probeFacts(sb *strings.Builder) {
 	var l []string
 	for _, w := range closeWays {
 		seen, bit, rd, lk, tags := closeWriteCell(w)
+		if tags < 0 {
+			tags = 99 // the path could not be driven (a Nat in the generated table)
+		}
 		l = append(l, fmt.Sprintf("(%q, [%v, %v, %v, %v], %d)", w, seen, bit, rd, lk, tags))
 	}
 	fmt.Fprintf(sb, "def closeWriteProbe : Option (List (String × List Bool × Nat)) := some [\n  %s]\n", strings.Join(l, ",\n  "))
